@@ -365,7 +365,9 @@ func (s *Server) monitorConnections(ctx context.Context) {
 		}
 
 		// todo: should this be delegated to another goroutine in case handling this hangs?
+		verifPoint("dispatch.begin", msg.Request())
 		s.handleService(ctx, sc, msg.RequestID, msg.Request())
+		verifPoint("dispatch.end", msg.Request())
 	}
 }
 
